@@ -27,6 +27,7 @@ func init() {
 			{ID: "C04.4", Doc: "per-query context cancelled on stop", Floor: 3, Run: c04r4},
 			{ID: "C04.5", Doc: "built-in lookups install the server node filter", Floor: 5, Run: c04r5},
 			{ID: "C04.7", Doc: "the filter sees what was reported: a contact taken from a reply keeps the ID it was reported under, unconditionally", Floor: 1, Run: c04r7},
+			{ID: "C04.8", Doc: "the queried set holds exactly the addresses whose query was started (shared with C03.9)", Floor: 1, Run: c03r9},
 			{ID: "C04.6", Doc: "the configured Alpha and K are replaced by a default only when unset", Floor: 2, Run: c04r6},
 		},
 	})
